@@ -1,0 +1,45 @@
+//go:build verif
+
+// Package verifhook holds the seams the deterministic-simulation harness in
+// /verif attaches to. This file is compiled only with the build tag `verif`;
+// every hook forwards to a function variable the simulator installs and is a
+// no-op while that variable is nil.
+package verifhook
+
+var (
+	YieldFn           func(site string, key ...int)
+	ReleasedFn        func(b []byte)
+	PermuteBatchFn    func(n int, swap func(i, j int))
+	ReorderTripletsFn func(b []byte) []byte
+)
+
+// Yield marks a point where the simulator may switch to another task.
+func Yield(site string, key ...int) {
+	if f := YieldFn; f != nil {
+		f(site, key...)
+	}
+}
+
+// Released is told about a pooled buffer that is about to go back to its pool.
+func Released(b []byte) {
+	if f := ReleasedFn; f != nil {
+		f(b)
+	}
+}
+
+// PermuteBatch lets the simulator replay any iteration order of a Go map
+// whose elements were collected into a slice of length n.
+func PermuteBatch(n int, swap func(i, j int)) {
+	if f := PermuteBatchFn; f != nil {
+		f(n, swap)
+	}
+}
+
+// ReorderTriplets lets the simulator choose the emission order of serialised
+// tag/length/value triplets.
+func ReorderTriplets(b []byte) []byte {
+	if f := ReorderTripletsFn; f != nil {
+		return f(b)
+	}
+	return b
+}
